@@ -146,7 +146,7 @@ class EqRel(sym.Rel):
 
 
 class Exec:
-    def __init__(self, prog, ctx, inputs, max_loop=40, loop_check=True, order=None, sub_args=None):
+    def __init__(self, prog, ctx, inputs, max_loop=40, loop_check=True, order=None, sub_args=None, no_expire=False):
         self.prog = prog
         self.ctx = ctx
         self.uni = ctx.uni
@@ -168,6 +168,10 @@ class Exec:
         self.args = sub_args or []
         self.autoinc = 0
         self.stats = {"inserts": 0, "scans": 0}
+        self.no_expire = no_expire    # keep relations that the program clears once no later stratum reads them
+        self.in_loop = 0
+        self.on_exit = None           # optional callback(exec, stmt) at every EXIT statement
+        self.insert_events = None     # optional list collecting (relation, tuple, guard) for every insert reached
 
     # ------------------------------------------------------------------ statements
     def run_main(self):
@@ -211,9 +215,13 @@ class Exec:
         elif k == "loop":
             self.loop(s)
         elif k == "exit":
+            if self.on_exit is not None:
+                self.on_exit(self, s)
             c = self.cond(s.cond, {})
             self.pc = g_and(self.pc, g_not(c))
         elif k == "clear":
+            if self.no_expire and self.in_loop == 0 and not s.rel.startswith("@"):
+                return
             self.rel(s.rel).clear(self.pc)
         elif k == "swap":
             a, b = self.rel(s.a), self.rel(s.b)
@@ -272,7 +280,16 @@ class Exec:
             for t, g in src.items():
                 r.insert(t, g_and(self.pc, g))
         elif opn == "output":
-            self.outputs[s.rel] = self.rel(s.rel).copy()
+            d = self.prog.rels[s.rel]
+            r = self.rel(s.rel)
+            if d.aux:
+                n = d.arity - d.aux
+                pr = sym.Rel(s.rel, n, d.types[:n], self.uni)
+                for t, g in r.items():
+                    pr.insert(t[:n], g)
+                self.outputs[s.rel] = pr
+            else:
+                self.outputs[s.rel] = r.copy()
         elif opn == "printsize":
             self.printsizes[s.rel] = self.rel(s.rel).size()
         else:
@@ -292,7 +309,11 @@ class Exec:
                     raise LoopBound("solver gave no verdict on the loop-continuation obligation (iteration %d)" % it)
             if it >= self.max_loop:
                 raise LoopBound("loop not exhausted after %d unrollings (unwinding obligation not discharged)" % it)
-            self.stmts(s.body)
+            self.in_loop += 1
+            try:
+                self.stmts(s.body)
+            finally:
+                self.in_loop -= 1
             it += 1
         self.loop_iters.append(it)
         self.pc = saved
@@ -393,6 +414,8 @@ class Exec:
             if any(v is None for v in t):
                 raise EngineError("UNDEF inserted")
             c = True if o.cond is None else self.cond(o.cond, env)
+            if self.insert_events is not None:
+                self.insert_events.append((o.rel, t, g_and(g, c)))
             self.rel(o.rel).insert(t, g_and(g, c))
             self.stats["inserts"] += 1
             return False
